@@ -1052,10 +1052,45 @@ Proof.
 Qed.
 
 
+(** * alphabets by label; alignments with an annotation db *)
+
+Lemma strs_of_json_map l : strs_of_json (map JStr l) = Ok l.
+Proof. induction l as [|x l IH]; [reflexivity|]. cbn [map strs_of_json]. rewrite IH. reflexivity. Qed.
+
+Lemma alphabet_roundtrip_lemma a d : mem_str (al_label a) moltype_labels = true -> alphabet_to_dict a = JObj d -> alphabet_of_dict d = Ok a.
+Proof.
+  intros Hok Hd. unfold alphabet_to_dict in Hd. injection Hd as <-. unfold alphabet_of_dict. jget_simpl. cbn [get_str bind].
+  rewrite Hok. cbn [negb]. cbn [jget]. jget_simpl. rewrite strs_of_json_map. cbn [bind]. rewrite get_opt_str_jopt. cbn [bind].
+  destruct a; reflexivity.
+Qed.
+
+Lemma alignment_of_dict_extra k inf rows d extra : alignment_to_dict k inf rows = JObj d ->
+  alignment_of_dict (d ++ [(k_annotation_db, extra)]) = alignment_of_dict d.
+Proof.
+  intros Hd. unfold alignment_to_dict in Hd. injection Hd as <-. cbn [app]. unfold alignment_of_dict. jget_simpl. reflexivity.
+Qed.
+
+Lemma alignment_db_roundtrip_lemma k inf rows db d : Forall aligned_ok rows -> AnnotDbProofs.tables_ok [0; 1] db -> db <> [] ->
+  alignment_db_to_dict k inf rows [0; 1] db = JObj d ->
+  exists rows' db', alignment_db_of_dict d = Ok ((k, inf, rows'), db') /\ map observe_aligned rows' = map observe_aligned rows /\
+    AnnotDbSpec.records_in_tables [0; 1] db' = AnnotDbSpec.records_in_tables [0; 1] db /\ Permutation db' db.
+Proof.
+  intros Hrows Hdb Hne Hd. unfold alignment_db_to_dict in Hd.
+  destruct (alignment_to_dict k inf rows) as [| | | | |ad|] eqn:Ea; try discriminate.
+  destruct db as [|r0 db0]; [contradiction|]. injection Hd as <-.
+  destruct (alignment_roundtrip_lemma k inf rows ad Hrows Ea) as (rows' & Hdec & Hobs).
+  destruct (db_to_dict [0; 1] (r0 :: db0)) as [| | | | |dbd|] eqn:Edb; try discriminate.
+  destruct (db_roundtrip_lemma (r0 :: db0) dbd Hdb Edb) as (db' & Hdbdec & Hrec & Hperm).
+  unfold alignment_db_of_dict. rewrite (alignment_of_dict_extra k inf rows ad _ Ea), Hdec. cbn [bind].
+  assert (Hj : jget k_annotation_db (ad ++ [(k_annotation_db, JObj dbd)]) = Some (JObj dbd)).
+  { pose proof Ea as Ea'. unfold alignment_to_dict in Ea'. injection Ea' as <-. cbn [app]. jget_simpl. reflexivity. }
+  rewrite Hj, Hdbdec. cbn [bind]. exists rows', db'. repeat split; assumption.
+Qed.
+
 Lemma roundtrip_via_registry_lemma x : obj_ok x ->
   exists y, deserialise_object (to_dict x) = Ok y /\ observe y = observe x.
 Proof.
-  destruct x as [v p sid|st s|m|a|k inf rows|t|t|a|n|dm|pc pa|fm|tbs rows|s tbs rows|lab]; cbn [obj_ok to_dict].
+  destruct x as [v p sid|st s|m|a|k inf rows|t|t|a|n|dm|pc pa|fm|tbs rows|s tbs rows|lab|al|k inf rows tbs db]; cbn [obj_ok to_dict].
   - (* bare view *)
     intros [Hwf Hfit].
     destruct (view_to_dict SOld v p sid) as [| | | | |d|] eqn:Ed; try discriminate.
@@ -1162,6 +1197,24 @@ Proof.
     pose proof Ed as Ed'. unfold moltype_to_dict in Ed'. injection Ed' as Ed'.
     subst d. unfold deserialise_object. jget_simpl. dispatch_to DMolType.
     cbn [run_decoder]. rewrite Hdec. cbn [bind]. eexists. split; reflexivity.
+  - (* alphabet *)
+    intros Hok.
+    destruct (alphabet_to_dict al) as [| | | | |d|] eqn:Ed; try discriminate.
+    pose proof (alphabet_roundtrip_lemma al d Hok Ed) as Hdec.
+    pose proof Ed as Ed'. unfold alphabet_to_dict in Ed'. injection Ed' as Ed'.
+    subst d. unfold deserialise_object. jget_simpl. dispatch_to DAlphabet.
+    cbn [run_decoder]. rewrite Hdec. cbn [bind]. eexists. split; reflexivity.
+  - (* alignment with its annotation db *)
+    intros (Hrows & [-> Hok] & Hne).
+    destruct (alignment_db_to_dict k inf rows [0; 1] db) as [| | | | |d|] eqn:Ed;
+      try (unfold alignment_db_to_dict, alignment_to_dict in Ed; destruct db; discriminate).
+    destruct (alignment_db_roundtrip_lemma k inf rows db d Hrows Hok Hne Ed) as (rows' & db' & Hdec & Hobs & Hrec & _).
+    assert (Hty : jget k_type d = Some (JStr ty_alignment) /\ exists dbd, jget k_annotation_db d = Some (JObj dbd)).
+    { unfold alignment_db_to_dict, alignment_to_dict, db_to_dict in Ed. destruct db as [|r0 db0]; [contradiction|]. injection Ed as <-.
+      cbn [app]. split; [jget_simpl; reflexivity|]. eexists. jget_simpl. reflexivity. }
+    destruct Hty as [Hty (dbd & Hdbk)].
+    unfold deserialise_object. rewrite Hty. dispatch_to DSeqCollections.
+    cbn [run_decoder]. rewrite Hdbk, Hdec. cbn [bind fst snd]. eexists. split; [reflexivity|]. cbn [observe]. now rewrite Hobs, Hrec.
 Qed.
 
 (** * what the bare view dict does NOT keep *)
